@@ -18,8 +18,8 @@ sed -i "s#path = \"/repo\"#path = \"$D/repo\"#" $D/harness/Cargo.toml
 cd /verif
 ASV_HARNESS_DIR=$D/harness ASV_OUT_DIR=$D/out ASV_TARGET_PREFIX=$D/target- timeout 3600 ./check $CHECK --tier $TIER > $D/last.log 2>&1
 rc=$?
-grep -E "^(VIOLATION|OK|FAIL|HARNESS|KNOWN|BUILD)" $D/last.log | cut -c1-250 | head -8
-grep -E "^  C" $D/last.log | cut -c1-300 | head -3
+grep -a -E "^(VIOLATION|OK|FAIL|HARNESS|KNOWN|BUILD)" $D/last.log | cut -c1-250 | head -8
+grep -a -E "^  C" $D/last.log | cut -c1-300 | head -3
 echo "seedtest patch=$PATCH check=$CHECK tier=$TIER rc=$rc"
 git -C $D/repo checkout -- .
 exit $rc
